@@ -268,6 +268,7 @@ namespace
             register_avx512vnni_vbmi2(all);
             register_emulated128(all);
             register_emulated256(all);
+            register_emulated512(all);
             HostCpu host;
             std::map<std::string, bool> seen;
             for (auto& e : all)
